@@ -12,7 +12,7 @@ CHECKS = {
              'scalar a solver variable; the vector<->matrix map is pinned against the generalised Gell-Mann definition (layout d*i+j, '
              'Tr l_a l_b = 2 delta_ab) and each operation is decided against the corresponding matrix operation by z3 (LRA/NRA on the '
              'normal-form residual, Float64 for exact Hermiticity, operator== decided over Float64 values (no arithmetic involved: +0 = -0 must hold, a bytewise comparison is refuted) with owning and viewing operands in all four combinations). The matrix constructor is also run on strided views (a d x d block of a larger matrix whose other entries are symbolic) and decided identical to the compact case; A/=s must be the single division a_k/s per component (term identity: a reciprocal-and-multiply is equal in exact reals only). Bounded: all inputs in the unit box for '
-             'the toleranced identities (the maps are linear-homogeneous), exact reals instead of doubles.',
+             'the toleranced identities (the maps are linear-homogeneous), exact reals instead of doubles. Compound assignment from expressions (A+=B*s, A-=s*B, A+=A*s, A-=s*A, A+=A+B, A-=A-B) and expressions assigned onto their own operand (A=A+B, A=B-A, A=-A, A=A*s) are decided component-wise with tolerance 0; a branch taken only for special argument values (e.g. s==1) is decided by a direct query under its branch condition.',
         note='Trusted: clang-14 -O1 IR as source semantics (diffed bit-for-bit against the g++ build on seeded inputs each run); GSL '
              'accessor shim harness/gsl_shim.c; exact-real arithmetic with a 1e-13 tolerance stands in for "up to rounding" '
              '(overflow/underflow/NaN outside the claim); z3 4/5 soundness.',
@@ -33,7 +33,7 @@ CHECKS['C13'] = dict(
          'unconstrained 32-bit solver variable; z3 decides, per path, that the represented matrix (through the C01-pinned map) is the '
          'documented 0/1 diagonal as a function of the index, that exactly the inadmissible indices throw, and that '
          'PosProjector(d,k)+NegProjector(d,d-k)=Identity for 0<k<d with k shared symbolically between two executions. The index space '
-         'is finite, so the per-dimension verdict is exhaustive. Every factory is also run after a vector of the same dimension, filled with one symbolic value, was destroyed (its block may be handed back) and after the same factory ran in a neighbouring dimension: the result must not depend on either.',
+         'is finite, so the per-dimension verdict is exhaustive. Every factory is also run after a vector of the same dimension, filled with one symbolic value, was destroyed (its block may be handed back) and after the same factory ran in a neighbouring dimension: the result must not depend on either. A further history overwrites an earlier result of the same call in place before calling again (results must not share storage).',
     note='Trusted: clang-14 -O1 IR (every admissible call is also diffed interpreter-vs-native), GSL shim, z3. Dimensions outside 2..6 '
          'belong to C14.',
     design='§3 C13')
@@ -42,7 +42,7 @@ CHECKS['C17'] = dict(
          '(thorough 2..33) with a<b and x symbolic reals: grid shape (ends, monotone, equal spacing; log/exp as monotone inverse '
          'uninterpreted functions with listed lemma instances; (1+delta) rounding model for the linear end point), acceptance of user '
          'grids iff sorted and of the right size with exact storage, and Get_i bracketing on exact uniform grids and on arbitrary '
-         'strictly increasing symbolic grids (i<=nx-2, x_i<=x<=x_{i+1}, throws iff outside). A log grid whose nodes are not exp of an affine function of log a, log b cannot be decided in the uninterpreted model and is confirmed or dismissed natively at node counts up to 200000 (end node within 8(1+|log a|+|log b|) ulp of b); the linear node formula must be the term a+(b-a)k/(nx-1) (monotone in doubles) or pass a native stress battery; the range test of Get_i is decided in the (1+delta) rounding model (end nodes never rejected, outer neighbours never accepted); lookup / re-grid / lookup: the second answer is decided by the new grid alone.',
+         'strictly increasing symbolic grids (i<=nx-2, x_i<=x<=x_{i+1}, throws iff outside). A log grid whose nodes are not exp of an affine function of log a, log b cannot be decided in the uninterpreted model and is confirmed or dismissed natively at node counts up to 200000 (end node within 8(1+|log a|+|log b|) ulp of b); the linear node formula must be the term a+(b-a)k/(nx-1) (monotone in doubles) or pass a native stress battery; the range test of Get_i is decided in the (1+delta) rounding model (end nodes never rejected, outer neighbours never accepted); lookup / re-grid / lookup: the second answer is decided by the new grid alone. The range test of Get_i is additionally decided over IEEE binary64 values (z3 floating-point theory, finite nodes and x, nx<=3): no x inside is rejected, no x outside accepted, subnormal and huge magnitudes included.',
     note='Trusted: clang-14 -O1 IR (interpreter-vs-native diff), std::string/operator new intrinsics, GSL shim for the Const members; '
          'exact reals stand in for doubles (the lookup only compares, so rounding enters through the grid values, which are symbolic).',
     design='§3 C17')
@@ -51,7 +51,7 @@ CHECKS['C03'] = dict(
          'H and the times symbolic; sin/cos calls become atoms keyed by their argument term and the solver identifies each argument '
          'with +-(E_j-E_k)t for a level pair (E from the C01-pinned map). With the instantiated lemmas (parity, circle, angle addition) '
          'z3 decides entry-wise conjugation exp(iHt)A exp(-iHt), preservation of scalar products, the group law t1 then t2 = t1+t2, '
-         't=0 identity (folded), agreement of the two-step form, and of both forms when the result is assigned onto the evolved vector itself, on the normal-form residuals; if PrepareEvolve branches on its arguments, every special branch is decided by a direct query on a buffer that held arbitrary values before the call.',
+         't=0 identity (folded), agreement of the two-step form, and of both forms when the result is assigned onto the evolved vector itself, on the normal-form residuals; if PrepareEvolve branches on its arguments, every special branch is decided by a direct query on a buffer that held arbitrary values before the call. Branches of Evolve taken only for special arguments (e.g. t==0) are decided path-wise against the generic formula; the compound forms B+=A.Evolve(H,t), B-=A.Evolve(H,t), B+=A.Evolve(buf), B-=A.Evolve(buf) and the forms A=guarantee<EqualSizes>(A.Evolve(..)) (a valid guarantee that promises nothing about aliasing) must give the documented result.',
     note='Trusted: as C01; sin/cos are uninterpreted atoms constrained only by the listed true lemmas (so the claim is for exact-real '
          'evaluation, large |t| argument rounding is outside); H restricted to the diagonal generators as the property states.',
     design='§3 C03')
@@ -73,7 +73,7 @@ CHECKS['C06'] = dict(
          'for small d. Rotate(U), UTransform(U), UDaggerTransform(U) are decided against U^dagger M U / U M U^dagger for a fully symbolic '
          'complex U, including after a previous call with the same matrix object or another dimension (thread-local scratch). The '
          'WeightedRotation sandwich is decided = Yd A Yd, both overloads compose the same logged primitive maps, and the call with the weight operator being the rotated vector itself equals the call with a separate copy (d<=2 quick, <=3 thorough, all angles symbolic); a native battery at special magnitudes (angles ~1e-9, next to pi/2) is reported separately. The parameter store '
-         'is decided with unconstrained symbolic indices.',
+         'is decided with unconstrained symbolic indices. The three matrix rotations are also run with U given as a strided view (a d x d block of a (d+2) x (d+2) matrix whose other entries hold a symbolic junk value).',
     note='Trusted: as C03; zgemm/containers from the reference shim; matrix entry points for d<=4 in the quick tier (d<=6 thorough); '
          'general (non-diagonal) Yd is outside the WeightedRotation clause.',
     design='§3 C06')
@@ -84,7 +84,7 @@ CHECKS['C14'] = dict(
          'bit-identical (object fields and buffer cells) and no load/store may fall outside the operands\' own d^2 doubles. All '
          'constructors/factories are run with dimension 1,7,8, every unsupported list length <=64, every unsupported matrix shape up to 8x8 and '
          'a symbolic factory index in 0..d*d+2; z3 decides that only admissible arguments are accepted; out-of-range cache indexing is caught '
-         'by the object table; every entry point is run with separate operand buffers, with both operands viewing one user buffer, and with a first operand that changed dimension by move assignment; self-owned targets of rejected compound assignments keep their value. Candidates are replayed natively under ASan/UBSan.',
+         'by the object table; every entry point is run with separate operand buffers, with both operands viewing one user buffer, and with a first operand that changed dimension by move assignment; self-owned targets of rejected compound assignments keep their value. Candidates are replayed natively under ASan/UBSan. Scalar products of two expressions ((A+A)*(B+B), iCommutator(A,A)*iCommutator(B,B)) and of a vector with an expression are part of the catalogue.',
     note='Trusted: clang-14 -O1 IR; heap/object model of irsym (fresh 32-byte aligned blocks, thread-local cache initially empty); the '
          'window of unsupported arguments is the one stated in the property.',
     design='§3 C14')
@@ -122,7 +122,7 @@ CHECKS['C15'] = dict(
          'object table (bounds, lifetime, constness), every delete against the allocation ledger, nsw/nuw arithmetic, shifts, division, '
          'unreachable and llvm.assume incl. its "align" operand bundles (asserted, i.e. the alignment/size guarantees handed to the optimiser must hold; an alignment family sends plain new[] blocks through the cache before guarantee<AlignedStorage> is used) on the executed path; at the end everything is '
          'destroyed, the cache drained and the ledger must be empty. SQuIDS objects: construct/ini/re-ini/move/destroy histories with a '
-         'full new/new[]/malloc ledger, including const queries on one and two objects (thread-local scratch). Failing histories are replayed on an ASan/UBSan build with a counting allocator.',
+         'full new/new[]/malloc ledger, including const queries on one and two objects (thread-local scratch). Failing histories are replayed on an ASan/UBSan build with a counting allocator. Pre-states with two dimensions of equal parity (2,4) (thorough also (3,5)) in which the resized target owns its block cover blocks recycled across dimensions; solver-object histories include a moved-from object that is initialised again (same and another configuration) and then used.',
     note='Trusted: clang-14 -O1 IR; irsym object/heap model; bound: histories <=3 operations (multi-step ones sampled by VERIF_SEED in the '
          'quick tier), dimensions (2,3) quick / three pairs thorough; arithmetic with empty-vector operands excluded (stated precondition '
          'size>=1); SQuIDS::Evolve excluded (GSL ODE driver has no IR); one logical thread.',
@@ -209,7 +209,7 @@ CHECKS['C12'] = dict(
          'is a polynomial in the inputs, and the polynomial base of every pow/sqrt/cbrt atom occurring in a divisor; each satisfying '
          'assignment is completed to a concrete operator and run on the real code, which must return finite values with M V = V diag(L) and '
          'V unitary; for d=2,4,5,6 the glue around gsl_eigen_hermv under a contract stub (matrix handed over = S2M(vector), containers and workspace of order d, workspace released, results passed through, sort requested iff asked, vector unmodified, no leak); for d=3 a second decomposition in the same thread returns exactly the single-call terms. Not decided: validity for degenerate/near-degenerate spectra and all of dimensions 2,4,5,6 (GSL); those are exercised '
-         'by a native battery of structured inputs and call histories whose findings are reported and labelled as such.',
+         'by a native battery of structured inputs and call histories whose findings are reported and labelled as such. Every branch of the dimension-3 closed form gets a solver-supplied input inside the dense, non-degenerate domain (first small dyadic components, found by z3\'s bounded non-linear integer tactic, so that a polynomial branch condition with an exact boundary such as x==0 is taken by the double computation too); the real code must return a valid eigensystem there (labelled: solver supplies the input, the native run decides).',
     note='OUTSIDE: gsl_eigen_hermv (compiled, iterative) for d != 3; the residual/unitarity identity for d = 3 (complex cube roots, '
          'cancellation). Three pre-existing defects of the d=3 closed form are recorded in known_findings.txt (not repaired: a correct '
          'treatment of structured and degenerate 3x3 inputs needs a different algorithm, not a small patch).',
